@@ -133,9 +133,45 @@ type LivePlan struct {
 	DownBytes  int   `json:"down_bytes"`
 
 	Reenc *ReencPlan `json:"reenc,omitempty"`
+
+	// NoCCS: the client does not use middlebox compatibility mode (RFC 8446,
+	// D.4: optional): its change_cipher_spec records never reach the wire.
+	NoCCS bool `json:"no_ccs,omitempty"`
+}
+
+// noCCSConn drops the change_cipher_spec records crypto/tls writes (it writes
+// whole records).
+type noCCSConn struct {
+	net.Conn
+	dropped *int
+}
+
+func (c *noCCSConn) Write(b []byte) (int, error) {
+	out := make([]byte, 0, len(b))
+	rest := b
+	for len(rest) >= 5 {
+		n := 5 + (int(rest[3])<<8 | int(rest[4]))
+		if n > len(rest) {
+			break
+		}
+		if rest[0] == 20 {
+			*c.dropped++
+		} else {
+			out = append(out, rest[:n]...)
+		}
+		rest = rest[n:]
+	}
+	out = append(out, rest...)
+	if len(out) > 0 {
+		if _, err := c.Conn.Write(out); err != nil {
+			return 0, err
+		}
+	}
+	return len(b), nil
 }
 
 type connObs struct {
+	ccsDropped      int
 	clientErr       error
 	clientState     tls.ConnectionState
 	clientEchoOK    bool
@@ -246,7 +282,11 @@ func (lw *liveWorld) runConn(n int, ccfg *tls.Config) *connObs {
 	go func() { // client node
 		defer close(clientDone)
 		lw.guard(o, "client", func() {
-			c := tls.Client(cc, ccfg)
+			var tc net.Conn = cc
+			if p.NoCCS {
+				tc = &noCCSConn{Conn: cc, dropped: &o.ccsDropped}
+			}
+			c := tls.Client(tc, ccfg)
 			o.clientErr = c.HandshakeContext(context.Background())
 			if o.clientErr == nil {
 				o.clientState = c.ConnectionState()
@@ -582,6 +622,9 @@ func executeLive(t *testing.T, prop string, seed uint64, p *LivePlan) *core.Resu
 			}
 			if o.backendState.HelloRetryRequest {
 				res.Probe("hrr_seen")
+				if o.ccsDropped > 0 {
+					res.Probe("hrr_client_without_compat_ccs")
+				}
 			}
 			if o.clientState.CurveID == tls.X25519MLKEM768 {
 				res.Probe("pq_key_share")
